@@ -1,24 +1,66 @@
 #!/usr/bin/env python3
-"""Prints a markdown table of /verif/seeded/*/meta.json (for DESIGN.md)."""
-import json, glob, os
+"""Prints a markdown table of /verif/seeded/*/meta.json (for DESIGN.md 11.6)."""
+import json, glob, os, re
+
+# what was strengthened after a first evaluation missed the change
+STRENGTHENED = {
+    "C01-2": "gen.Value 'fragedge': value sizes at the exact physical-record boundaries of the log (payload == 32768 +-2, remainder == k*32768 +-2)",
+    "C02-1": "same generator change as C01-2 (exact fragment boundaries)",
+    "C03-2": "C03 crash: commits of hundreds of records (key pools of 150-400 keys, several log buffers), crash point chosen late in the commit",
+    "C04-2": "C04: registry reaper (idle/TTL cleanup) running concurrently with the transaction's own calls; wrapped storage backend that pauses inside Get",
+    "C08-2": "C08 crash: torn-tail crash plans, no parent open between rounds (recover-then-write in ONE process), concurrent variant",
+    "C09-2": "C09/drive: keys and values handed over as adjacent sub-slices of one arena (capacity of the key extends over the value)",
+    "C14-1": "C14: 'idle_few' class (replica connected and idle for 3-6 s, then 1-5 last writes)",
+    "C14-2": "C14: 'bulk' class (100-entry catch-up messages of 1.1-3.3 MiB, a replica joins or restarts afterwards)",
+    "C15-2": "C15: fault class 'nack_sender' (replica that keeps reading and sends NegativeAcknowledge: spam and lossy variants)",
+    "C17-1": "C17: injected commit failure (storage backend whose ApplyBatch fails) followed by the lock probe",
+    "C17-2": "C17: begin request cancelled exactly when the lock is granted (cancel_at_grant)",
+    "C02-3": "C02: buffer-boundary class (sizes computed so that the process dies with the log ending at/within bytes of a record header), Abandon rounds",
+    "C02-4": "C02: TestPropConcurrentCrash (writers + flusher, death at a site after a pause, issue/ack log oracle)",
+    "C05-3": "C05: 'txsession' queries (one read-write transaction alternating writes to its own keys and scans)",
+    "C05-4": "C05: 'session' queries (one re-used iterator, several Seek/Next) and a bulk-load class giving SSTables of >= 3 blocks",
+    "C06-3": "C06: resource-limit fault windows (RLIMIT_NOFILE=0 / RLIMIT_FSIZE) during the client phase, so that writes really fail",
+    "C08-3": "gen: empty batches / empty transactions (size 0) in generated programs",
+    "C13-4": "C13: real Replica state machine with injected transient apply failures (error state -> recovery -> new stream)",
+    "C15-4": "C15: primary with a pre-history (older log files in the directory) so that the ack path's retention pass has work to do",
+}
+
 rows = []
+n = caught = first_missed = open_miss = 0
 for d in sorted(glob.glob('/verif/seeded/*/')):
+    name = os.path.basename(d.rstrip('/'))
     mp = os.path.join(d, 'meta.json')
+    fm = os.path.join(d, 'first_evaluation_missed.json')
     if not os.path.exists(mp):
+        if os.path.exists(fm):
+            m = json.load(open(fm))
+            brk = m.get('breaks', '')[:150].replace('|', '/').replace('\n', ' ')
+            rows.append(f"| {name} | {brk} | **missed; strengthened check not evaluated yet** | {STRENGTHENED.get(name, '')} |")
+            n += 1; open_miss += 1
         continue
     m = json.load(open(mp))
     r = m.get('results', {})
-    name = os.path.basename(d.rstrip('/'))
     det = []
-    for c, v in r.get('checks', {}).items():
-        det.append(f"{c}:{'caught' if v.get('exit') == 1 else ('exit ' + str(v.get('exit')))}")
-    first = 'missed at first, caught after strengthening' if os.path.exists(os.path.join(d, 'first_evaluation_missed.json')) else ''
     sig = ''
     for c, v in r.get('checks', {}).items():
-        if v.get('signatures'):
-            sig = v['signatures'][0].split(':')[0][:60] if False else v['signatures'][0][:70]
-            break
-    brk = m.get('breaks', '')[:110].replace('|', '/').replace('\n', ' ')
-    rows.append(f"| {name} | {brk} | {' '.join(det)} | {first} |")
-print("| id | change (summary by its author) | quick-tier result | note |\n|---|---|---|---|")
+        det.append(f"{c}: {'caught' if v.get('exit') == 1 else ('NOT caught (exit ' + str(v.get('exit')) + ')')}")
+        if not sig and v.get('signatures'):
+            s0 = next((x for x in v['signatures'] if not x.startswith('VIOLATION')), '')
+            s0 = re.sub(r'^regression replay fails: ', '', s0)
+            sig = s0.split(': ')[0][:80]
+    n += 1
+    ok = r.get('detected')
+    if ok:
+        caught += 1
+    else:
+        open_miss += 1
+    note = ''
+    if os.path.exists(fm):
+        first_missed += 1
+        note = 'missed at first; ' + STRENGTHENED.get(name, 'check strengthened')
+    brk = m.get('breaks', '')[:150].replace('|', '/').replace('\n', ' ')
+    res = ' '.join(det) + (f" `{sig}`" if sig and ok else '')
+    rows.append(f"| {name} | {brk} | {res} | {note} |")
+print(f"{n} seeded changes; {caught} caught by the quick tier of the property's own check ({first_missed} of them only after the check was strengthened); {open_miss} not caught.\n")
+print("| id | change (first 150 characters of its author's summary) | quick-tier result and first signature | note |\n|---|---|---|---|")
 print('\n'.join(rows))
